@@ -107,3 +107,17 @@ Proof.
   - apply andb_true_iff in H0. destruct H0 as [H0 _]. apply Nat.eqb_eq. exact H0.
   - intros m Hm. rewrite forallb_forall in H. apply star_ok_sound. apply H. exact Hm.
 Qed.
+
+(* two valid reductions of the same input generate the same closure (C11: recorded vs plain) *)
+Theorem two_reductions_same_closure n G m1 m2 :
+  all_DN n G ->
+  all_DN n (flat_map (fun m => concat (fst m)) m1) -> all_DN n (flat_map snd m1) ->
+  all_DN n (flat_map (fun m => concat (fst m)) m2) -> all_DN n (flat_map snd m2) ->
+  reduction_ok n G m1 = true -> reduction_ok n G m2 = true ->
+  forall p, ClL (flat_map (fun m => concat (fst m)) m1) p <-> ClL (flat_map (fun m => concat (fst m)) m2) p.
+Proof.
+  intros HG H1 H1' H2 H2' R1 R2 p.
+  destruct (reduction_ok_sound n G m1 HG H1 H1' R1) as [E1 _].
+  destruct (reduction_ok_sound n G m2 HG H2 H2' R2) as [E2 _].
+  rewrite <- (E1 p). apply E2.
+Qed.
